@@ -27,8 +27,8 @@ Require Import MV.C04.Gen MV.C04.Model MV.C04.Run.
 Open Scope string_scope. Open Scope list_scope. Open Scope Z_scope.
 """
 
-TEXT_FORMATS = ["xyz", "obj", "off", "tet", "mesh"]
-FMT_COQ = {"xyz": "Fxyz", "obj": "Fobj", "off": "Foff", "tet": "Ftet", "mesh": "Fmedit"}
+TEXT_FORMATS = ["xyz", "obj", "off", "tet", "mesh", "geogram_ascii"]
+FMT_COQ = {"xyz": "Fxyz", "obj": "Fobj", "off": "Foff", "tet": "Ftet", "mesh": "Fmedit", "geogram_ascii": "Fgeo"}
 
 
 def gen(ctx):
@@ -68,7 +68,7 @@ def gen_mesh(rng):
     style = rng.choice(["small", "small", "dyadic", "special", "any"])
     nv = 0 if kind == "empty" else rng.choice([1, 2, 3, 4, 5, 6, 8, 9, 12])
     if kind in ("tri", "quad", "mixed", "polygon", "surf+edges"):
-        nv = max(nv, 5 if kind == "polygon" else 4)
+        nv = max(nv, 6 if kind == "polygon" else 4)
     if kind in ("tet", "tethex"):
         nv = max(nv, 5)
     if kind in ("hex", "tethex"):
@@ -105,6 +105,42 @@ def gen_mesh(rng):
         rng.shuffle(C)
     # dedupe exact duplicates of edges (prepare keeps them, fine) - nothing to do
     return {"kind": kind, "style": style, "V": V, "E": E, "F": F, "C": C}
+
+
+ATYPES = ["Bool", "Int", "Float", "Complex", "String"]
+WORDS = ["a", "b", "foo", "bar", "hello", "x_y", "Zed", "w1", "north", "alpha-beta"]
+
+
+def gen_aval(rng, ty):
+    if ty == "Bool":
+        return rng.random() < 0.6
+    if ty == "Int":
+        return rng.choice([0, 1, -1, 7, 42, -300, 4294967295, 2 ** 40])
+    if ty == "Float":
+        return f2b(rand_float(rng, rng.choice(["small", "dyadic", "special", "any"])))
+    if ty == "Complex":
+        return [f2b(rand_float(rng, "dyadic")), f2b(rand_float(rng, rng.choice(["small", "dyadic"])))]
+    return rng.choice(WORDS)
+
+
+def gen_attrs(rng, mesh):
+    """random attributes on the containers of the mesh (created by the driver once the mesh is prepared)"""
+    out = {}
+    names = ["att", "w", "flag", "label", "uv", "k2", "normals_", "my attr".replace(" ", "_")]
+    for ck in ("V", "E", "F", "FC", "C", "CC", "CF"):
+        if rng.random() < 0.55:
+            continue
+        lst = []
+        for name in rng.sample(names, rng.choice([1, 1, 2])):
+            ty = rng.choice(ATYPES)
+            ar = rng.choice([1, 1, 1, 2, 3])
+            dense = rng.random() < 0.3
+            vals = []
+            for k in sorted(rng.sample(range(40), rng.randint(0, 8))):
+                vals.append([k, [gen_aval(rng, ty) for _ in range(ar)]])
+            lst.append({"name": name + "_" + ck.lower(), "type": ty, "arity": ar, "dense": dense, "vals": vals})
+        out[ck] = lst
+    return out
 
 
 def gen_cfg(rng):
@@ -146,6 +182,32 @@ def tokenize(text):
     return [[tok_of_text(t) for t in ln.split()] for ln in lines]
 
 
+def tokenize_geogram(text):
+    """one token per line (comment and blanks removed); the data lines of a string-typed [ATTR] chunk are words"""
+    lines = text.split("\n")
+    if lines and lines[-1] == "":
+        lines.pop()
+    out = []
+    pos = None       # position inside the current chunk
+    is_str = False
+    for ln in lines:
+        t = ln.split("#")[0].strip()
+        if "[HEAD]" in t or "[ATTS]" in t or "[ATTR]" in t:
+            pos = 0
+            is_str = False
+        elif pos is not None:
+            pos += 1
+        if pos == 3 and t.strip('"') in ("str", "string"):
+            is_str = True
+        if is_str and pos is not None and pos >= 6:
+            out.append([["w", t]])
+        elif t == "" or " " in t or "\t" in t:
+            out.append([["w", t]])
+        else:
+            out.append([tok_of_text(t)])
+    return out
+
+
 def text_of_tok(t):
     if t[0] == "i":
         return str(t[1])
@@ -184,12 +246,12 @@ def cstr(s):
 
 def tok_term(t):
     if t[0] == "i":
-        return "TInt %s" % z(t[1])
+        return "tI %s" % z(t[1])
     if t[0] == "f":
-        return "TFlt %s" % z(t[1])
+        return "tF %s" % z(t[1])
     if t[0] == "c":
-        return "TCx (%s, %s)" % (z(t[1]), z(t[2]))
-    return "TWord %s" % cstr(t[1])
+        return "tC (%s, %s)" % (z(t[1]), z(t[2]))
+    return "tW %s" % cstr(t[1])
 
 
 def lines_term(lines):
@@ -201,26 +263,26 @@ TY = {"Bool": "TyBool", "Int": "TyInt", "Float": "TyFloat", "Complex": "TyComple
 
 def aval_term(v):
     if v[0] == "b":
-        return "VBool %s" % coq_bool(v[1])
+        return "vB %s" % coq_bool(v[1])
     if v[0] == "i":
-        return "VInt %s" % z(v[1])
+        return "vI %s" % z(v[1])
     if v[0] == "f":
-        return "VFloat %s" % z(v[1])
+        return "vF %s" % z(v[1])
     if v[0] == "c":
-        return "VCx (%s, %s)" % (z(v[1]), z(v[2]))
+        return "vC (%s, %s)" % (z(v[1]), z(v[2]))
     if v[0] == "s":
-        return "VStr %s" % cstr(v[1])
+        return "vS %s" % cstr(v[1])
     raise ValueError(v)
 
 
 def attr_term(a):
     name, ty, ar, vals = a
-    return "(mkattr %s %s %s [%s])" % (cstr(name), TY[ty], z(ar), "; ".join(aval_term(v) for v in vals))
+    return "(zmkattr %s %s %s [%s])" % (cstr(name), TY[ty], z(ar), "; ".join(aval_term(v) for v in vals))
 
 
 def sattr_term(a):
     name, ty, ar, kind, items = a
-    return "(mksattr %s %s %s [%s])" % (cstr(name), TY[ty], z(ar),
+    return "(zmksattr %s %s %s [%s])" % (cstr(name), TY[ty], z(ar),
                                        "; ".join("(%s, [%s])" % (z(k), "; ".join(aval_term(v) for v in vs)) for k, vs in items))
 
 
@@ -235,7 +297,7 @@ def mesh_term(mi, with_attrs=False):
             return "[]"
         return "[" + "; ".join(attr_term(a) for a in at.get(k, [])) + "]"
     adj = zl(mi.get("adj") or []) if with_attrs else "[]"
-    return "(mkmesh %s %s %s %s %s %s %s %s %s %s %s %s %s)" % (
+    return "(zmkmesh %s %s %s %s %s %s %s %s %s %s %s %s %s)" % (
         V, E, hard, zll(mi["F"] or []), zll(mi["C"] or []), al("V"), al("E"), al("F"), al("FC"), al("C"), al("CC"), al("CF"), adj)
 
 
@@ -246,7 +308,7 @@ def raw_term(r, with_attrs=False):
         if not with_attrs:
             return "[]"
         return "[" + "; ".join(sattr_term(a) for a in at.get(k, [])) + "]"
-    return "(mkraw %s %s %s %s %s %s %s %s %s %s %s)" % (
+    return "(zmkraw %s %s %s %s %s %s %s %s %s %s %s)" % (
         zll(r["V"]), zll(r["E"]), zll(r["F"]), zll(r["C"]), al("V"), al("E"), al("F"), al("FC"), al("C"), al("CC"), al("CF"))
 
 
@@ -310,7 +372,69 @@ def expected_raw(fmt, mi, cfg, ignore):
         return {"V": V, "E": carried_edges() if E else [],
                 "F": [f for f in F if len(f) == 3] + [f for f in F if len(f) == 4],
                 "C": [c for c in C if len(c) == 8] + [c for c in C if len(c) == 4]}
+    if fmt == "geogram_ascii":
+        return {"V": V, "E": E, "F": F, "C": C}
     raise ValueError(fmt)
+
+
+DEFAULTS = {"Bool": ["b", False], "Int": ["i", 0], "Float": ["f", 0], "Complex": ["c", 0, 0], "String": ["s", ""]}
+NEGZERO = 1 << 63
+
+
+def norm_val(v):
+    """numeric equality for attribute values: -0.0 and 0.0 are the same number"""
+    if v[0] == "f" and v[1] == NEGZERO:
+        return ["f", 0]
+    if v[0] == "c":
+        return ["c", 0 if v[1] == NEGZERO else v[1], 0 if v[2] == NEGZERO else v[2]]
+    return v
+
+
+def dense_from_sparse(a, n):
+    name, ty, ar, kind, items = a
+    d = dict((k, vs) for k, vs in items)
+    out = []
+    for i in range(n):
+        out += d.get(i, [DEFAULTS[ty]] * ar)
+    return out
+
+
+def oracle_geogram_attrs(mi, adj, got, ignore):
+    """every attribute comes back with its name, type, arity and values (read densely)"""
+    ign = set(ignore or [])
+    nE = 0 if "edges" in ign else len(mi["E"] or [])
+    F = [] if "faces" in ign else (mi["F"] or [])
+    C = [] if "cells" in ign else (mi["C"] or [])
+    sizes = {"V": len(mi["V"]), "E": nE, "F": len(F), "FC": sum(len(f) for f in F), "C": len(C),
+             "CC": sum(len(c) for c in C), "CF": sum(len(c) for c in C)}
+    for ck in ("V", "E", "F", "FC", "C", "CC", "CF"):
+        orig = (mi.get("attrs") or {}).get(ck, [])
+        if ck != "V" and sizes[{"E": "E", "F": "F", "FC": "F", "C": "C", "CC": "C", "CF": "C"}[ck]] == 0:
+            orig = []   # the container is not written at all
+        back = {a[0]: a for a in got["attrs"].get(ck, [])}
+        names = [a[0] for a in orig]
+        extra = set(back) - set(names) - ({"opposite_cell"} if ck == "CF" else set())
+        if extra:
+            return "attribute(s) %s appear on %s after save/load" % (sorted(extra), ck)
+        for name, ty, ar, vals in orig:
+            if name not in back:
+                return "attribute %r of %s is lost by save/load" % (name, ck)
+            b = back[name]
+            if b[1] != ty or b[2] != ar:
+                return "attribute %r of %s comes back as %s x%d instead of %s x%d" % (name, ck, b[1], b[2], ty, ar)
+            dv = dense_from_sparse(b, sizes[ck])
+            if [norm_val(v) for v in dv] != [norm_val(v) for v in vals]:
+                return "values of attribute %r of %s differ after save/load: saved %s, loaded %s" % (name, ck, json.dumps(vals)[:200], json.dumps(dv)[:200])
+        if ck == "CF" and C:
+            if "opposite_cell" not in back:
+                return "cell adjacency is not read back"
+            dv = dense_from_sparse(back["opposite_cell"], sizes["CF"])
+            want = [["i", x] for x in (adj or [])]
+            # unset entries of the adjacency read as NOT_AN_ID
+            dv = [["i", 4294967295] if (i not in dict((k, 1) for k, _ in back["opposite_cell"][4])) else v for i, v in enumerate(dv)]
+            if dv != want:
+                return "cell adjacency differs after save/load: saved %s, loaded %s" % (want, dv)
+    return None
 
 
 CLASS = {0: "PointCloud", 1: "PolyLine", 2: "SurfaceMesh", 3: "VolumeMesh"}
@@ -330,6 +454,8 @@ def oracle_save_load(fmt, job, res):
         return None  # faces of fewer than 3 vertices are not faces
     if "save_exc" in res:
         return "save raised %s: %s" % (res["save_exc"]["exc"], res["save_exc"]["msg"])
+    if fmt == "geogram_ascii" and mi.get("FC") is not None and mi["FC"] != [x for f in (mi["F"] or []) for x in f]:
+        return None  # face corners not in step with the faces: outside the model
     ld = res.get("load")
     if ld is None:
         return None
@@ -340,10 +466,101 @@ def oracle_save_load(fmt, job, res):
     for k, what in (("V", "vertex coordinates"), ("E", "edges"), ("F", "faces"), ("C", "cells")):
         if got[k] != want[k]:
             return "%s differ after save/load: saved %s, loaded %s" % (what, json.dumps(want[k])[:300], json.dumps(got[k])[:300])
+    if fmt == "geogram_ascii":
+        msg = oracle_geogram_attrs(mi, res.get("adj"), got, ignore)
+        if msg:
+            return msg
     if "class_exc" in ld:
         return "building the loaded mesh raised %s: %s" % (ld["class_exc"]["exc"], ld["class_exc"]["msg"])
     if ld["class"] != implied_class(want):
         return "loaded object is a %s, its content implies %s" % (ld["class"], implied_class(want))
+    return None
+
+
+# ---------------------------------------------------------------------- binary STL
+def f32bits(b64):
+    """binary32 pattern of the rounding of a double, or -1 when it does not fit (numpy, not struct)"""
+    import numpy as np
+    x = b2f(b64)
+    with np.errstate(over="ignore"):
+        y = np.float32(x)
+    if not np.isfinite(y):
+        return -1
+    return int(np.array([y], dtype=np.float32).view(np.uint32)[0])
+
+
+def f32bits_to_f64bits(b32):
+    import numpy as np
+    return f2b(float(np.array([b32], dtype=np.uint32).view(np.float32)[0]))
+
+
+def stl_fields(data):
+    """bytes -> [("H", text), ("U32", n), ("F", bits)..., ("U16", k)] following the binary STL layout; None if misaligned"""
+    if len(data) < 84 or (len(data) - 84) % 50:
+        return None
+    out = [["H", data[:80].rstrip(b"\0").decode("latin1")], ["U32", struct.unpack("<I", data[80:84])[0]]]
+    for k in range((len(data) - 84) // 50):
+        rec = data[84 + 50 * k: 134 + 50 * k]
+        out += [["F", v] for v in struct.unpack("<12I", rec[:48])]
+        out.append(["U16", struct.unpack("<H", rec[48:])[0]])
+    return out
+
+
+def stl_reference_reader(data):
+    """independent reader of the binary STL layout: list of triangles, each 3 points of 3 binary32 patterns"""
+    if len(data) < 84:
+        return None
+    n = int.from_bytes(data[80:84], "little")
+    if len(data) != 84 + 50 * n:
+        return None
+    tris = []
+    for k in range(n):
+        o = 84 + 50 * k + 12
+        w = [int.from_bytes(data[o + 4 * i: o + 4 * i + 4], "little") for i in range(9)]
+        tris.append([w[0:3], w[3:6], w[6:9]])
+    return tris
+
+
+def sfield_term(f):
+    if f[0] == "H":
+        return "sH %s" % cstr(f[1])
+    return {"U32": "sU32", "F": "sF", "U16": "sU16"}[f[0]] + " " + z(f[1])
+
+
+def smesh_term(mi):
+    V = "[" + "; ".join("(%s, %s, %s)" % tuple("(%s, %s)" % (z(c), z(f32bits(c))) for c in v) for v in mi["V"]) + "]"
+    return "(szmkmesh %s [] None %s [] [] [] [] [] [] [] [] [])" % (V, zll(mi["F"] or []))
+
+
+def oracle_stl(job, res):
+    mi = res["mesh_in"]
+    ign = set(job.get("ignore") or [])
+    F = [] if "faces" in ign else (mi["F"] or [])
+    if not res.get("unchanged", True):
+        return "save modified the mesh it was given"
+    in_range = all(f32bits(c) >= 0 for f in F for v in f for c in mi["V"][v])
+    if "save_exc" in res:
+        if not in_range and res["save_exc"]["exc"] in ("OverflowError", "error"):
+            return None   # a coordinate that binary32 cannot hold: refusing is not a loss
+        if any(len(f) not in (3, 4) for f in F) and res["save_exc"]["exc"] == "ValueError":
+            return None   # polygons are outside STL's vocabulary and are refused
+        return "save raised %s: %s" % (res["save_exc"]["exc"], res["save_exc"]["msg"])
+    if any(len(f) != 3 for f in F) or not F:
+        return None       # only triangle meshes are claimed for STL
+    ld = res.get("load")
+    if ld is None:
+        return None
+    if "raw_exc" in ld:
+        return "loading the saved file raised %s: %s" % (ld["raw_exc"]["exc"], ld["raw_exc"]["msg"])
+    got = ld["raw"]
+    soup = [[got["V"][i] for i in f] for f in got["F"]]
+    want = [[[f32bits_to_f64bits(f32bits(c)) for c in mi["V"][v]] for v in f] for f in F]
+    if soup != want:
+        return "triangle soup differs after save/load: saved %s, loaded %s" % (json.dumps(want)[:300], json.dumps(soup)[:300])
+    if got["E"] or got["C"]:
+        return "edges or cells appear after an STL save/load"
+    if ld.get("class") != "SurfaceMesh":
+        return "loaded object is %s, a triangle soup implies SurfaceMesh" % (ld.get("class") or ld.get("class_exc"))
     return None
 
 
@@ -370,7 +587,11 @@ def run_jobs(jobs, timeout=900):
     return out
 
 
-def obs_raw_term(ld):
+def shard_of(terms):
+    return max(20, min(400, -(-len(terms) // core.NCPU)))
+
+
+def obs_raw_term(ld, with_attrs=False):
     """(option zraw, option (option string)) terms from a load observation"""
     if "raw_exc" in ld:
         return "None", "None"
@@ -379,7 +600,21 @@ def obs_raw_term(ld):
     cls = "None"
     if "class" in ld:
         cls = "(Some (Some %s))" % cstr(ld["class"])
-    return "(Some %s)" % raw_term(ld["raw"]), cls
+    if with_attrs and any(v[0] == "other" or not isinstance(k, int) for al in ld["raw"]["attrs"].values() for a in al for k, vs in a[4] for v in vs):
+        return None, None
+    return "(Some %s)" % raw_term(ld["raw"], with_attrs=with_attrs), cls
+
+
+def oracle_any(job, r):
+    return oracle_stl(job, r) if job["fmt"] == "stl" else oracle_save_load(job["fmt"], job, r)
+
+
+def classify(job, r, msg):
+    """failure class (matched against known_findings)"""
+    mi = r.get("mesh_in") or {}
+    if job["fmt"] == "geogram_ascii" and msg.startswith("save raised") and any(len(c) != 4 for c in (mi.get("C") or [])):
+        return "geogram_ascii/non-tetrahedral-cells/save-raises"
+    return "%s/%s" % (job["fmt"], re.sub(r"[^a-zA-Z ]", "", msg.split(":")[0])[:60].strip().replace(" ", "-"))
 
 
 def shrink_mesh(mesh, fails):
@@ -433,6 +668,7 @@ def run(ctx):
     ctx.regen(sys.modules[__name__])
     b = ctx.build_props(extra_targets=["theories/C04/Run.vo"])
     ctx.hygiene(["Lib", "C04"])
+    ctx.log("built")
 
     # ---- float text round trip (trusted base of the theorems, tested)
     bits = [f2b(x) for x in SPECIAL] + [f2b(rand_float(ctx.rng, "any")) for _ in range(2000 if quick else 100000)]
@@ -454,15 +690,24 @@ def run(ctx):
         m["cfg"] = gen_cfg(ctx.rng)
         if ctx.rng.random() < 0.08:
             m["ignore"] = ctx.rng.choice([["faces"], ["edges"], ["cells"], ["edges", "faces"], []])
+        if ctx.rng.random() < 0.7:
+            m["gattrs"] = gen_attrs(ctx.rng, m)
         meshes.append(m)
     jobs = []
     for m in meshes:
         for fmt in TEXT_FORMATS:
-            jobs.append(save_job(m, fmt, m.get("cfg") or {}, m.get("ignore")))
+            mm = m
+            if fmt == "geogram_ascii" and "gattrs" in m:
+                mm = dict(m, attrs=m["gattrs"])
+            jobs.append(save_job(mm, fmt, m.get("cfg") or {}, m.get("ignore")))
+        if m["F"] and "faces" not in (m.get("ignore") or []):
+            jobs.append(save_job(m, "stl", m.get("cfg") or {}, m.get("ignore")))
+    ctx.log("floats done; running %d save/load jobs" % len(jobs))
     res = run_jobs(jobs)
+    ctx.log("implementation runs done")
 
-    save_terms, load_terms, rt_terms = [], [], []
-    save_idx, load_idx = [], []
+    save_terms, load_terms, rt_terms, stl_terms = [], [], [], []
+    save_idx, load_idx, stl_idx = [], [], []
     fails = []
     for idx, (job, r) in enumerate(zip(jobs, res)):
         fmt = job["fmt"]
@@ -477,6 +722,26 @@ def run(ctx):
                       nontrivial=bool(mi["E"] or mi["F"] or mi["C"]),
                       sample={"format": fmt, "mesh": {k: job["mesh"][k] for k in ("E", "F", "C")}, "cfg": job.get("cfg"),
                               "file": (r.get("file") or {}).get("text", "")[:200]})
+        if fmt == "stl":
+            msg = oracle_stl(job, r)
+            if msg:
+                fails.append((idx, msg))
+            if not mesh_modelled(mi):
+                continue
+            if "file" in r:
+                data = bytes.fromhex(r["file"]["hex"])
+                flds = stl_fields(data)
+                ref = stl_reference_reader(data)
+                if flds is None:
+                    fails.append((idx, "the file written is not a whole number of 50-byte facets after the 84-byte header"))
+                    continue
+                stl_terms.append("(%s, Some [%s], %s)" % (smesh_term(dict(mi, F=[] if "faces" in (job.get("ignore") or []) else mi["F"])),
+                                                        "; ".join(sfield_term(f) for f in flds),
+                                                        "None" if ref is None else "(Some %s)" % ("[" + "; ".join(zll(t) for t in ref) + "]")))
+            else:
+                stl_terms.append("(%s, None, None)" % smesh_term(mi))
+            stl_idx.append(idx)
+            continue
         msg = oracle_save_load(fmt, job, r)
         if msg:
             fails.append((idx, msg))
@@ -484,16 +749,24 @@ def run(ctx):
             ctx.count("outside model input type")
             continue
         sw = sw_term(job.get("cfg") or {}, job.get("ignore"))
-        mt = mesh_term(mi)
+        geo = fmt == "geogram_ascii"
+        if geo:
+            mi = dict(mi, adj=r.get("adj"))
+            if any(a[3][:1] == ["EXC"] or any(v[0] == "other" for v in a[3]) for al in (mi.get("attrs") or {}).values() for a in al):
+                ctx.count("attribute outside the model")
+                continue
+            if not all(printable(a[0]) and all(v[0] != "s" or printable(v[1]) for v in a[3]) for al in mi["attrs"].values() for a in al):
+                continue
+        mt = mesh_term(mi, with_attrs=geo)
         if "file" in r:
-            toks = tokenize(r["file"]["text"])
+            toks = tokenize_geogram(r["file"]["text"]) if geo else tokenize(r["file"]["text"])
             if not printable(r["file"]["text"].replace("\n", " ")):
                 continue
             save_terms.append("(%s, %s, %s, Some %s)" % (FMT_COQ[fmt], sw, mt, lines_term(toks)))
             save_idx.append(idx)
             ld = r.get("load")
             if ld is not None:
-                ot, ct = obs_raw_term(ld)
+                ot, ct = obs_raw_term(ld, with_attrs=geo)
                 if ot is not None:
                     load_terms.append("(%s, %s, %s, %s)" % (FMT_COQ[fmt], lines_term(toks), ot, ct))
                     load_idx.append(idx)
@@ -504,14 +777,16 @@ def run(ctx):
 
     ctx.obligation("oracle: every save -> load of the implementation is lossless within the format's vocabulary and of the implied class",
                    "oracle-on-implementation", True, "%d failing cases" % len(fails))
-    bad_s = bad_l = bad_r = []
+    ctx.log("terms built")
+    bad_s = bad_l = bad_r = bad_t = []
     if b["model_ok"]:
-        bad_s = ctx.run_cases("save", HEADER, save_terms, "check_save", case_type="fmt * switches * zmesh * option (list zline)", shard=150)
-        bad_l = ctx.run_cases("load", HEADER, load_terms, "check_load", case_type="fmt * list zline * option zraw * option (option string)", shard=150)
-        bad_r = ctx.run_cases("roundtrip", HEADER, rt_terms, "check_roundtrip", case_type="fmt * switches * zmesh", shard=300)
+        bad_s = ctx.run_cases("save", HEADER, save_terms, "check_save", case_type="(fmt * switches * zmesh * option (list zline))", shard=shard_of(save_terms))
+        bad_l = ctx.run_cases("load", HEADER, load_terms, "check_load", case_type="(fmt * list zline * option zraw * option (option string))", shard=shard_of(load_terms))
+        bad_r = ctx.run_cases("roundtrip", HEADER, rt_terms, "check_roundtrip", case_type="(fmt * switches * zmesh)", shard=shard_of(rt_terms))
+        bad_t = ctx.run_cases("stl", HEADER, stl_terms, "check_stl", case_type="(smesh * option (list sfld) * option (list (list (list Z))))", shard=shard_of(stl_terms))
     else:
         ctx.obligation("correspondence batches", "correspondence", False, "model does not compile")
-    for name, bad, idxs in (("save", bad_s, save_idx), ("load", bad_l, load_idx)):
+    for name, bad, idxs in (("save", bad_s, save_idx), ("load", bad_l, load_idx), ("stl", bad_t, stl_idx)):
         for i in (bad or [])[:4]:
             j = idxs[i]
             ctx.log("disagreement (%s) case %d: fmt=%s mesh=%s cfg=%s ignore=%s" % (name, j, jobs[j]["fmt"], json.dumps(jobs[j]["mesh"])[:300],
@@ -523,7 +798,7 @@ def run(ctx):
     reported = set()
     for idx, msg in fails[:100]:
         job = jobs[idx]
-        key = "%s/%s" % (job["fmt"], re.sub(r"[^a-zA-Z ]", "", msg.split(":")[0])[:60].strip().replace(" ", "-"))
+        key = classify(job, res[idx], msg)
         if key in reported:
             continue
         reported.add(key)
@@ -534,11 +809,11 @@ def run(ctx):
         def still(mm, job=job):
             jj = dict(job, mesh={k: mm[k] for k in ("V", "E", "F", "C")})
             rr = run_jobs([jj])[0]
-            return "mesh_in" in rr and oracle_save_load(job["fmt"], jj, rr) is not None
+            return "mesh_in" in rr and oracle_any(jj, rr) is not None
         small = shrink_mesh(job["mesh"], still)
         jj = dict(job, mesh=small)
         rr = run_jobs([jj])[0]
-        m2 = oracle_save_load(job["fmt"], jj, rr) if "mesh_in" in rr else None
+        m2 = oracle_any(jj, rr) if "mesh_in" in rr else None
         ctx.violation("%s: %s" % (job["fmt"], m2 or msg), {"job": jj if m2 else job, "observed": rr if m2 else res[idx], "class": key}, key=key)
 
 
@@ -552,6 +827,6 @@ def replay(ctx, data):
     if "mesh_in" not in r:
         print("FAILS: could not build the mesh: %s" % json.dumps(r)[:300])
         return 1
-    m = oracle_save_load(job["fmt"], job, r)
+    m = oracle_any(job, r)
     print("FAILS: " + m if m else "passes")
     return 1 if m else 0
